@@ -109,7 +109,9 @@ CLAIMED["C04"] = {
             "integer and Boolean values exact, reported value = library objective + offset. optimal_value of the tableau path maps the sign flip and offset correctly. "
             "LinearModel::calc_constraints / calc_objective are proved to report, for every row in order and under the row's own name, exactly that row's left-hand side at the given values, and the objective function at the values plus the offset (U04.act). "
             "LpSolution::new is used through its contract, proved in U16.sol. "
-            "NOT decided: feasibility inside the external solvers themselves (assumed contract), the good_lp/Clarabel bridges, the filter of make_constraints_map_from_assignment (rows named __*), the name filtering of as_lp_solution.",
+            "BOUNDED (labelled, not counted as proved): the property's own statement is executed on the real default-feature solvers (tableau simplex incl. as_lp_solution, Clarabel through the good_lp bridge, the microlp LP and MILP bridges, the auto solver) "
+            "over about 1800 three-variable models: every returned solution is checked against the model (rows, bounds, integrality, one value per variable, objective incl. offset, named-row activities). "
+            "NOT decided deductively: feasibility inside the external solvers themselves (assumed contract), the good_lp/Clarabel bridge (generic trait plumbing and closures), the filter of make_constraints_map_from_assignment (rows named __*), the name filtering of as_lp_solution: all four are covered by the bounded check only.",
     "note": _LIB + "Trusted preludes: f64_layer.rs, smap.rs, std_stubs.rs. Assumed: make_constraints_map_from_assignment (ensures true).",
     "technique": "Verus loop invariants over a ghost model of the microlp Problem/Solution on the extracted solve_milp_lp_problem_with",
     "design_ref": "DESIGN.md §5 C04",
@@ -117,7 +119,8 @@ CLAIMED["C04"] = {
 CLAIMED["C05"] = {
     "text": "Verdict mapping proved on the real code: Err(Infeasible)/Err(Unbounded) of the MILP bridge are returned only when the library reports them for exactly this model; auto_solver answers without the solver only a model with no rows and no variables; "
             "one step of the tableau simplex reports Finished only without an improving column and Unbounded only with a genuine witness column (U14.step), pivots preserve the solution set (U14.pivot). "
-            "NOT decided: that the simplex always reaches a verdict (termination), the two-phase start, Clarabel status mapping, agreement between solvers (a corollary of each being right, relative to the assumed library contracts).",
+            "BOUNDED (labelled): the tableau path against the microlp bridge on small LPs (U13.std), and the tableau path against Clarabel on about 900 continuous three-variable models (U04.sol): same verdict kind, optima within 1e-6 relative. "
+            "NOT decided deductively: that the simplex always reaches a verdict (termination), the two-phase start, Clarabel status mapping, agreement between solvers in general (bounded checks only).",
     "note": _LIB + "Kani harnesses for the tableau selection rules are bounded (labelled).",
     "technique": "Verus contracts on extracted auto_solver / solve_milp_lp_problem_with / Tableau::step_inner; Kani bounded harnesses for find_h/find_t",
     "design_ref": "DESIGN.md §5 C05",
